@@ -118,14 +118,17 @@ uint64_t oasis_read_unsigned_integer(OasisStream& in) {
     uint8_t num_bits = 7;
     while (byte & 0x80) {
         if (oasis_read(&byte, 1, 1, in) != ErrorCode::NoError) return result;
-        if (num_bits == 63 && byte > 1) {
+        uint8_t payload = byte & 0x7F;
+        if ((num_bits == 63 && payload > 1) || (num_bits > 63 && payload > 0)) {
             if (error_logger)
                 fputs("[GDSTK] Integer above maximal limit found. Clipping.\n", error_logger);
             if (in.error_code == ErrorCode::NoError) in.error_code = ErrorCode::Overflow;
             return 0xFFFFFFFFFFFFFFFF;
         }
-        result |= ((uint64_t)(byte & 0x7F)) << num_bits;
-        num_bits += 7;
+        if (num_bits < 64) {
+            result |= ((uint64_t)payload) << num_bits;
+            num_bits += 7;
+        }
     }
     return result;
 }
@@ -169,15 +172,19 @@ static uint8_t oasis_read_int_internal(OasisStream& in, uint8_t skip_bits, int64
     uint8_t num_bits = 7 - skip_bits;
     while (byte & 0x80) {
         if (oasis_read(&byte, 1, 1, in) != ErrorCode::NoError) return bits;
-        if (num_bits > 56 && (byte >> (63 - num_bits)) > 0) {
+        uint8_t payload = byte & 0x7F;
+        if ((num_bits > 62 && payload > 0) ||
+            (num_bits > 56 && num_bits <= 62 && (payload >> (63 - num_bits)) > 0)) {
             if (error_logger)
                 fputs("[GDSTK] Integer above maximal limit found. Clipping.\n", error_logger);
             if (in.error_code == ErrorCode::NoError) in.error_code = ErrorCode::Overflow;
             result = 0x7FFFFFFFFFFFFFFF;
             return bits;
         }
-        result |= ((uint64_t)(byte & 0x7F)) << num_bits;
-        num_bits += 7;
+        if (num_bits < 63) {
+            result |= ((uint64_t)payload) << num_bits;
+            num_bits += 7;
+        }
     }
     return bits;
 }
